@@ -22,7 +22,7 @@ func DrawMuts(t *rapid.T, max int) []Mut {
 	n := rapid.IntRange(1, max).Draw(t, "nmut")
 	var out []Mut
 	for i := 0; i < n; i++ {
-		m := Mut{Kind: rapid.SampledFrom([]int{0, 0, 1, 1, 2, 3, 3, 3, 3, 4, 5, 6, 6, 6, 7, 7, 7}).Draw(t, "mkind"), Pos: rapid.IntRange(0, 1<<20).Draw(t, "mpos")}
+		m := Mut{Kind: rapid.SampledFrom([]int{0, 0, 1, 1, 2, 3, 3, 3, 3, 4, 5, 6, 6, 6, 7, 7, 7, 8, 8, 8}).Draw(t, "mkind"), Pos: rapid.IntRange(0, 1<<20).Draw(t, "mpos")}
 		switch m.Kind {
 		case 0:
 			m.Val = uint64(rapid.IntRange(0, 7).Draw(t, "bit"))
@@ -32,7 +32,7 @@ func DrawMuts(t *rapid.T, max int) []Mut {
 			} else {
 				m.Val = uint64(rapid.Byte().Draw(t, "b"))
 			}
-		case 7:
+		case 7, 8:
 			m.Val = uint64(rapid.IntRange(0, 1<<16).Draw(t, "redirTarget"))
 		case 4, 5:
 			m.Len = rapid.IntRange(1, 64).Draw(t, "mlen")
@@ -56,6 +56,7 @@ func DrawMuts(t *rapid.T, max int) []Mut {
 type Redirect struct {
 	PosOff, PosLen int
 	Targets        []uint64 // block offsets that can be written with PosLen bytes
+	Extra          []int    // further varint fields near this one (counts, key lengths)
 }
 
 func putVarint(v uint64) []byte {
@@ -78,13 +79,37 @@ func putVarint(v uint64) []byte {
 // Apply performs the edits on a copy of data. targets are offsets of
 // structurally interesting bytes (block headers, lengths, restart tables,
 // footer fields) in the unmutated file; other is a second valid table.
+var hostileVarints = [][]byte{
+	{0xff, 0xff, 0xff, 0xff, 0x7f},
+	{0xff, 0xff, 0xff, 0xff, 0xff, 0xff, 0xff, 0xff, 0xff, 0x7f},
+	{0xff, 0xff, 0x7f},
+	{0x80, 0x80, 0x80, 0x80, 0x00},
+	{0xff, 0xff, 0xff, 0xff, 0xff, 0xff, 0xff, 0xff, 0xff, 0xff, 0xff, 0xff},
+	{0x8f, 0xff, 0xff, 0x7f},
+}
+
 func Apply(data []byte, other []byte, targets []int, muts []Mut, fixCRC bool, hdr int, redirects ...Redirect) []byte {
 	d := append([]byte{}, data...)
+	// fields parsed as varints: redirect positions (index/object entries) and the marked extra targets
+	var varintTargets []int
+	for _, r := range redirects {
+		varintTargets = append(varintTargets, r.PosOff)
+		varintTargets = append(varintTargets, r.Extra...)
+	}
 	for _, m := range muts {
 		if len(d) == 0 {
 			break
 		}
 		switch m.Kind {
+		case 8:
+			// a hostile varint (huge value, or over-long encoding) written over a field that is parsed as a varint
+			if len(varintTargets) > 0 {
+				p := varintTargets[m.Pos%len(varintTargets)]
+				enc := hostileVarints[int(m.Val%uint64(len(hostileVarints)))]
+				for i := 0; i < len(enc) && p+i < len(d); i++ {
+					d[p+i] = enc[i]
+				}
+			}
 		case 7:
 			if len(redirects) > 0 {
 				r := redirects[m.Pos%len(redirects)]
